@@ -334,20 +334,6 @@ def run_matrix_case(case):
             finally:
                 signal.alarm(0)
         out['res'].append(r)
-    # C06 on a long-lived generated parser object: the semantics object of each call is the one that is used
-    if case.get('backend') == 'generated' and case.get('reuse_kinds'):
-        shared = cls()
-        bad = []
-        for text in case['texts'][:10]:
-            for kind in case['reuse_kinds']:
-                sem, _ = make_semantics2(kind, case['rules'], case.get('params'))
-                sem2, _ = make_semantics2(kind, case['rules'], case.get('params'))
-                kw = dict(settings)
-                a = outcome(lambda: shared.parse(text, start=case.get('start', 's'), **({'semantics': sem} if sem is not None else {}), **kw))
-                b = outcome(lambda: cls().parse(text, start=case.get('start', 's'), **({'semantics': sem2} if sem2 is not None else {}), **kw))
-                if (a['k'], a.get('v'), a.get('cls')) != (b['k'], b.get('v'), b.get('cls')) and len(bad) < 3:
-                    bad.append({'text': text, 'semantics': kind, 'reused_object': a, 'fresh_object': b})
-        out['reuse_mismatch'] = bad
     return out
 
 
@@ -473,4 +459,18 @@ def run_sem_case(case):
             o['calls'] = calls
             r[kind] = o
         out['res'].append(r)
+    # C06 on a long-lived generated parser object: the semantics object of each call is the one that is used
+    if case.get('backend') == 'generated' and case.get('reuse_kinds'):
+        shared = cls()
+        bad = []
+        for text in case['texts'][:10]:
+            for kind in case['reuse_kinds']:
+                sem, _ = make_semantics2(kind, case['rules'], case.get('params'))
+                sem2, _ = make_semantics2(kind, case['rules'], case.get('params'))
+                kw = dict(settings)
+                a = outcome(lambda: shared.parse(text, start=case.get('start', 's'), **({'semantics': sem} if sem is not None else {}), **kw))
+                b = outcome(lambda: cls().parse(text, start=case.get('start', 's'), **({'semantics': sem2} if sem2 is not None else {}), **kw))
+                if (a['k'], a.get('v'), a.get('cls')) != (b['k'], b.get('v'), b.get('cls')) and len(bad) < 3:
+                    bad.append({'text': text, 'semantics': kind, 'reused_object': a, 'fresh_object': b})
+        out['reuse_mismatch'] = bad
     return out
